@@ -92,6 +92,17 @@ def explore_item(execute: Callable[[Any, List[int]], ExecResult], params: Any, b
     return res
 
 
+def _keep(res: dict, v: dict, cap: int = 400) -> None:
+    """Keep the first witness of every distinct (clause, key): a frequent (e.g. known) violation must never crowd out
+    a rare one, so the cap counts distinct kinds, not occurrences."""
+    seen = res.setdefault("vkeys", set())
+    k = (v.get("clause"), v.get("key"))
+    if k in seen or len(seen) >= cap:
+        return
+    seen.add(k)
+    res["violations"].append(v)
+
+
 def _blank_result() -> dict:
     return {"executions": 0, "points": 0, "digests": set(), "nontrivial": set(), "sigs": set(),
             "violations": [], "capped": False, "cap_pending": 0, "replay_checks": 0,
@@ -111,8 +122,7 @@ def _account(res: dict, r: ExecResult, params: Any, choices: List[int], want_sam
     if dev > res["maxdev"]:
         res["maxdev"] = dev
     for v in r.violations:
-        if len(res["violations"]) < 400:
-            res["violations"].append({**v, "params": params, "choices": choices})
+        _keep(res, {**v, "params": params, "choices": choices})
     if want_sample and r.sample is not None and len(res["samples"]) < 2:
         res["samples"].append(r.sample)
 
@@ -135,7 +145,7 @@ def bfs(run: Callable[[List[Any]], Tuple[Any, List[dict], List[Any]]], depth: in
         canon, viol, ops = run(list(hist))
         res["executions"] += 1
         for v in viol:
-            res["violations"].append({**v, "history": list(hist)})
+            _keep(res, {**v, "history": list(hist)})
         if canon not in seen:
             seen.add(canon)
             frontier.append((list(hist), ops))
@@ -155,8 +165,7 @@ def bfs(run: Callable[[List[Any]], Tuple[Any, List[dict], List[Any]]], depth: in
                 res["executions"] += 1
                 transitions += 1
                 for v in v2:
-                    if len(res["violations"]) < 400:
-                        res["violations"].append({**v, "history": h2})
+                    _keep(res, {**v, "history": h2})
                 if c2 not in seen:
                     seen.add(c2)
                     nxt.append((h2, ops2))
@@ -258,8 +267,8 @@ def _merge_all(total: dict, results: Any) -> None:
             total[key] |= res[key]
         total["maxdev"] = max(total["maxdev"], res.get("maxdev", 0))
         total["divergent"].extend(res.get("divergent", []))
-        if len(total["violations"]) < 2000:
-            total["violations"].extend(res["violations"])
+        for v in res["violations"]:
+            _keep(total, v, cap=5000)
         if len(total["samples"]) < 6:
             total["samples"].extend(res["samples"][: 6 - len(total["samples"])])
         if "depth_completed" in res:
